@@ -185,6 +185,12 @@ fn seed_for(d: usize, rng: &mut Rng) -> Vec<u8> {
                 2 => m.push((int(-2), Cbor::Bytes(rng.bytes(32)))),
                 3 => m.push((int(-4), Cbor::Bytes(rng.bytes(32)))),
                 4 => m.push((int(-70000), Cbor::Text("x".into()))),
+                // a structurally valid key with tens of thousands of further parameters (about 1 MiB)
+                5 if rng.chance(1, 40) => {
+                    for j in 0..rng.range(60_000, 90_000) {
+                        m.push((Cbor::Text(format!("p{j}")), int(j as i64)));
+                    }
+                }
                 _ => {}
             }
             oracle::cbor_ser(&Cbor::Map(m))
@@ -193,14 +199,15 @@ fn seed_for(d: usize, rng: &mut Rng) -> Vec<u8> {
             let fp: Vec<String> = (0..32).map(|_| format!("{:02X}", rng.byte())).collect();
             fp.join(":").into_bytes()
         }
-        26 => rng.pick(&["www.example.co.uk", "a.b.c.kobe.jp", "xn--55qx5d.cn", "example.com", "foo.ck"]).as_bytes().to_vec(),
+        // (also names spelled with capitals next to characters whose lower-case form has another UTF-8 length)
+        26 => rng.pick(&["www.example.co.uk", "a.b.c.kobe.jp", "xn--55qx5d.cn", "example.com", "foo.ck", "Www.Example.CO.UK", "A\u{23a}", "Example.\u{1e9e}", "Www.Example.\u{212a}", "Shop.\u{2126}", "\u{130}stanbul.Example.TR", "M\u{fc}nchen.DE"]).as_bytes().to_vec(),
         28 => {
             // AES-CBC output as a platform sends it: any multiple of 16, mostly the two specified sizes
             let l = *rng.pick(&[32usize, 64, 32, 64, 0, 16, 48, 80, 96, 128, 160, 256, 1024, 4096]);
             rng.bytes(l)
         }
         29 => vec![rng.byte()],
-        _ => rng.pick(&["example.com", "login.example.co.uk", "localhost", "xn--bcher-kva.de"]).as_bytes().to_vec(),
+        _ => rng.pick(&["example.com", "login.example.co.uk", "localhost", "xn--bcher-kva.de", "Login.Example.\u{212a}", "A\u{23a}.example.com", "Shop.\u{2126}"]).as_bytes().to_vec(),
     }
 }
 
